@@ -141,23 +141,23 @@ Definition ex_hub : screen_spec :=
   {| sc_setup := []; sc_refresh := []; sc_show := []; sc_closed := [SMark 1];
      sc_input := [(key 112, ([SPushModal 1 7], RRedraw)); (key 115, ([SPush 3 0], RProcessed)); (key 113, ([], RClose))];
      sc_input_default := ([], None); sc_prompt_none := false; sc_input_required := true;
-     sc_no_separator := false; sc_skip_check := false; sc_pages := 0; sc_answer0 := AnsNoAttr |}.
+     sc_no_separator := false; sc_skip_check := false; sc_pages := 0; sc_answer0 := AnsNoAttr; sc_custom := [] |}.
 (* a dialog that replaces itself by a second one on 'r' *)
 Definition ex_dialog : screen_spec :=
   {| sc_setup := []; sc_refresh := []; sc_show := []; sc_closed := [SMark 2];
      sc_input := [(key 114, ([SReplace 2 5], RProcessed))];
      sc_input_default := ([], None); sc_prompt_none := false; sc_input_required := true;
-     sc_no_separator := false; sc_skip_check := false; sc_pages := 0; sc_answer0 := AnsNoAttr |}.
+     sc_no_separator := false; sc_skip_check := false; sc_pages := 0; sc_answer0 := AnsNoAttr; sc_custom := [] |}.
 (* the second dialog: 'c' (the global key) closes it *)
 Definition ex_dialog2 : screen_spec :=
   {| sc_setup := []; sc_refresh := []; sc_show := []; sc_closed := [SMark 3];
      sc_input := []; sc_input_default := ([], None); sc_prompt_none := false; sc_input_required := true;
-     sc_no_separator := true; sc_skip_check := false; sc_pages := 0; sc_answer0 := AnsNoAttr |}.
+     sc_no_separator := true; sc_skip_check := false; sc_pages := 0; sc_answer0 := AnsNoAttr; sc_custom := [] |}.
 (* a screen whose setup fails the first time *)
 Definition ex_shy : screen_spec :=
   {| sc_setup := [false; true]; sc_refresh := []; sc_show := []; sc_closed := [];
      sc_input := []; sc_input_default := ([], None); sc_prompt_none := false; sc_input_required := true;
-     sc_no_separator := false; sc_skip_check := false; sc_pages := 0; sc_answer0 := AnsNoAttr |}.
+     sc_no_separator := false; sc_skip_check := false; sc_pages := 0; sc_answer0 := AnsNoAttr; sc_custom := [] |}.
 Definition ex_specl : list screen_spec := [ex_hub; ex_dialog; ex_dialog2; ex_shy].
 Definition ex_specs (n : nat) : screen_spec := nth n ex_specl default_spec.
 
